@@ -414,7 +414,19 @@ func scenario(t *rapid.T, rest []tarx.Entry) []tarx.Entry {
 		}
 	}
 	var plant []tarx.Entry
-	switch rapid.IntRange(0, 6).Draw(t, "family") {
+	switch rapid.IntRange(0, 7).Draw(t, "family") {
+	case 7: // an escaping link by way of another link, inside a directory recorded without write permission
+		d, a, b := seg("d"), seg("a"), seg("b")
+		if a == d {
+			a = a + "2"
+		}
+		dir := ent(d+"/", "dir", "")
+		dir.Mode = rapid.SampledFrom([]int64{0555, 0500, 0755, 0111}).Draw(t, "romode")
+		tail := rapid.SampledFrom([]string{"/..", "/../..", "/../dst-evil", "/../outside"}).Draw(t, "viatail7")
+		plant = []tarx.Entry{dir, ent(a, "symlink", "."), ent(d+"/"+b, "symlink", "../"+a+tail)}
+		if rapid.Bool().Draw(t, "dirlast") {
+			plant = []tarx.Entry{plant[1], plant[2], plant[0]}
+		}
 	case 6: // an entry for which nothing is extracted, deep below a link that physically leaves dst for a while
 		a, b := seg("a"), seg("b")
 		if a == b {
